@@ -100,6 +100,9 @@ pub mod shape;
 #[cfg(feature = "parallel")]
 pub mod parallel;
 
+#[cfg(feature = "verif-hooks")]
+pub mod verif_hooks;
+
 mod arithmetic;
 mod construct;
 mod convert;
